@@ -4,7 +4,7 @@
 
 use std::fmt::Write;
 
-#[derive(Clone, Debug, PartialEq)]
+#[derive(Clone, Debug)]
 pub enum Doc {
     Null,
     Bool(bool),
@@ -16,6 +16,24 @@ pub enum Doc {
     Str(String),
     Seq(Vec<Doc>),
     Obj(Vec<(String, Doc)>),
+}
+
+/// Structural equality; floats are equal when numerically equal *or* bit-identical, so that a
+/// log that quotes a NaN payload still equals its own replay.
+impl PartialEq for Doc {
+    fn eq(&self, other: &Doc) -> bool {
+        match (self, other) {
+            (Doc::Null, Doc::Null) => true,
+            (Doc::Bool(a), Doc::Bool(b)) => a == b,
+            (Doc::Int(a), Doc::Int(b)) => a == b,
+            (Doc::Neg(a), Doc::Neg(b)) => a == b,
+            (Doc::Float(a), Doc::Float(b)) => a == b || a.to_bits() == b.to_bits(),
+            (Doc::Str(a), Doc::Str(b)) => a == b,
+            (Doc::Seq(a), Doc::Seq(b)) => a == b,
+            (Doc::Obj(a), Doc::Obj(b)) => a == b,
+            _ => false,
+        }
+    }
 }
 
 #[derive(Clone, Copy, Debug, PartialEq, Eq, Hash, PartialOrd, Ord)]
